@@ -167,6 +167,7 @@ static var Tuple_Iter_Next(var self, var curr) {
 
 static var Tuple_Iter_Last(var self) {
   struct Tuple* t = self;
+  if (Tuple_Len(t) is 0) { return Terminal; }
   return t->items[Tuple_Len(t)-1];
 }
 
